@@ -76,12 +76,22 @@ type exerciseOpts struct {
 	maxNodes       int  // per-node exercising is limited to this many tape positions
 	allowInterface bool // Interface/Map recursion (excluded for extreme nesting, see KNOWN_FINDINGS KF-1)
 	linearOnly     bool // extreme nesting: the harness's own recursive walkers (W1, W3, W4) would overflow the stack; use the iterative ones
+	shared         *exerciseShared
+}
+
+// exerciseShared: destination objects that one exercise() call recycles from node to node, as a caller would
+type exerciseShared struct {
+	els   *simdjson.Elements
+	names []string
+	obj   simdjson.Object
+	arr   simdjson.Array
 }
 
 func exercise(pj *simdjson.ParsedJson, o exerciseOpts) error {
 	if o.maxNodes == 0 {
 		o.maxNodes = 300
 	}
+	o.shared = &exerciseShared{}
 	// whole-tape readers
 	var err error
 	run := func(what string, f func()) bool {
@@ -231,6 +241,25 @@ func exerciseNode(it *simdjson.Iter, o exerciseOpts) error {
 				els.Lookup("")
 				o2b := *obj
 				o2b.Parse(els)
+			}
+			if sh := o.shared; sh != nil {
+				// one Elements destination for every object of the document; look up the previous object's names
+				c5 := *it
+				if o5, e := c5.Object(&sh.obj); e == nil {
+					if els2, e := o5.Parse(sh.els); e == nil && els2 != nil {
+						for _, k := range sh.names {
+							els2.Lookup(k)
+						}
+						sh.names = sh.names[:0]
+						for i, el := range els2.Elements {
+							if i < 64 {
+								sh.names = append(sh.names, el.Name)
+							}
+						}
+						els2.MarshalJSON()
+						sh.els = els2
+					}
+				}
 			}
 			o3 := *obj
 			o3.FindKey("a", nil)
